@@ -518,7 +518,7 @@ func walk(r *simkit.Run, prop string) {
 		// database (`--to sqlite://other.db`) in which plain unique indexes are UNIQUE constraints:
 		// the desired graph then carries SQLite's generated index names.
 		if prop == "C17" && t.Chance("desired-inspected-from-a-database", 1, 5) {
-			if ws := inspectedDesired(ctx, dir, desired); ws != nil {
+			if ws := inspectedDesired(ctx, dir, desired, false); ws != nil {
 				want = ws
 				r.Probe("desired-inspected-from-a-database")
 			}
@@ -877,6 +877,19 @@ func checkConverged(ctx context.Context, r *simkit.Run, w *world, obs *sql.DB, d
 	}
 	if back, err := drv.RealmDiff(want.Realm, cur, schema.DiffNormalized()); err == nil && len(back) > 0 {
 		r.Probe("reverse-direction-diff-not-empty") // differ asymmetry: C02 territory, not a convergence failure
+	}
+	// The same desired state given as a database (`--to sqlite://other.db`, or a SQL file through the
+	// dev database), in which plain unique indexes are UNIQUE constraints with the engine's names: the
+	// database just reached is in sync with that description of it as well.
+	if r.T.Chance("converged-against-inspected-desired", 1, 3) {
+		if ws := inspectedDesired(ctx, dir, desired, true); ws != nil {
+			fwd2, err := drv.RealmDiff(cur, ws.Realm, schema.DiffNormalized())
+			r.Probe("converged-check-against-inspected-desired")
+			if err == nil && len(fwd2) > 0 {
+				r.Fail(prop, "converged", "residual-diff-to-inspected-desired/"+reached, "step %d: after a successful apply the difference to the desired schema, read from a database that holds it, is not empty: [%s]; desired %s", step, changeKinds(fwd2), desired.Describe())
+				return
+			}
+		}
 	}
 	// The live catalog equals the catalog of a database created from the desired schema by the
 	// simulator's own DDL: keeps the check meaningful if the differ itself goes blind.
@@ -1473,7 +1486,9 @@ func inspectSig(err error) string {
 
 // inspectedDesired creates the desired schema on a scratch engine, with every plain unique index
 // written as a UNIQUE constraint, and returns what Atlas inspects from it.
-func inspectedDesired(ctx context.Context, dir string, desired *Sch) *schema.Schema {
+// With onlyNormalised, only the indexes that already carry the name Atlas gives to a constraint's
+// index (<table>_<columns>) are turned into constraints: the description then names the same things.
+func inspectedDesired(ctx context.Context, dir string, desired *Sch, onlyNormalised bool) *schema.Schema {
 	c := desired.Clone()
 	for _, tb := range c.Tables {
 		seen := map[string]bool{}
@@ -1485,6 +1500,9 @@ func inspectedDesired(ctx context.Context, dir string, desired *Sch) *schema.Sch
 					plain = false
 				}
 				cols = append(cols, p.Col)
+			}
+			if onlyNormalised && ix.Name != tb.Name+"_"+strings.Join(cols, "_") {
+				plain = false
 			}
 			if key := strings.Join(cols, ","); plain && !seen[key] {
 				seen[key] = true
